@@ -224,7 +224,7 @@ def _run_py(info_py, mesh, q, cutoff, mode, dim):
 def unit(cfg):
     name, dim, lengths, mode = cfg
     label = "%s/%s/%s/mode=%s" % (name, dim, ",".join("%s=%d" % kv for kv in sorted(lengths.items())) or "mono", mode)
-    u = Unit(label, timeout_ms=60000)
+    u = Unit(label, timeout_ms=30000)
     km, info_py = definitions(name)
     info = km.info
     mesh, syms = sym_mesh(info, lengths, dim)
